@@ -5,7 +5,6 @@ import (
 	"runtime"
 	"sync"
 	"time"
-
 )
 
 // C05 - one compiled template can be executed from many goroutines at once.
@@ -56,8 +55,8 @@ func c05Run(c *C) {
 	start := make(chan struct{})
 	type mismatch struct {
 		g, it, ctx int
-		op        string
-		got, want execResult
+		op         string
+		got, want  execResult
 	}
 	var mu sync.Mutex
 	var mm []mismatch
